@@ -203,3 +203,78 @@ Print Assumptions C04_overlap_end_replication_lost_wakeup_refuted.
 Example C04_overlap_ended_reachable :
   exists s, oreach false pol_quiescent s /\ quiescent s = true /\ o_ps s = PEnded /\ qgood s = true.
 Proof. exact ended_reachable_sequentially. Qed.
+
+(* ---- the model regenerated from the source IS the proved model (M1, sequential) --
+   Sim/Gen_Sim.v is regenerated on every run by translator/py2gallina_sim.py from
+   simulator.py of the tree under test; Sim/GenAgree.v proves the generated methods
+   equal to the command semantics of Sim/Model.v the sequential theorems above are
+   about: the precondition blocks of _start_impl / start / run_up_to(_including) /
+   step / stop / end_replication / initialize in their order and with their
+   refusals, the state updates and notifications of each command, cleanup, and one
+   wake-up of the worker thread's run().  [sim_wf] is the representation invariant
+   of the Python object (an initialised simulator has a replication and a worker
+   thread); it holds in every state reachable from a fresh simulator.  The thread
+   machinery itself is not translated: overlap is M2 (Sim/Overlap.v) above. ---- *)
+From PV Require Import Sim.Gen_Sim Sim.GenAgree.
+
+Theorem C04_generated_model_is_the_proved_model :
+  (forall fuel p s c, sim_wf s -> gen_do_cmd fuel p s c = do_cmd fuel p s c) /\
+  (forall fuel p cs s, sim_wf s -> gen_run_cmds fuel p s cs = run_cmds fuel p s cs) /\
+  (forall fuel p w s, rep s <> None -> gen_SimulatorWorkerThread_run fuel p w s = GRet RNone w (worker_run fuel p s)) /\
+  (forall w s, gen_Simulator_stop w s =
+               if running s then GRet RNone w (set_rs RStopping (emit NStopping s)) else GExc EDSOL w s) /\
+  (forall w s, gen_Simulator_cleanup w s = GRet RNone (match worker s with WNone => w | _ => false end) (do_cleanup s)) /\
+  (forall fuel p s, (ps s = PStarted -> rep s <> None /\ worker s <> WNone) ->
+     gen_settle fuel p (gen_DEVSSimulator_end_replication false s) = do_end_repl fuel p s) /\
+  (forall w s m r, gen_Simulator__check_initialize w s m r =
+     if py_model_is_model m && py_model_has_simulator m && py_repl_is_repl r && negb (running s)
+     then GRet RNone w s else GExc EDSOL w s).
+Proof.
+  exact (conj gen_do_cmd_eq (conj gen_run_cmds_eq (conj gen_worker_run_eq (conj gen_stop_eq
+          (conj gen_cleanup_eq (conj gen_end_replication_eq gen_check_initialize_eq)))))).
+Qed.
+Print Assumptions C04_generated_model_is_the_proved_model.
+
+(* every state the command lists reach from a fresh simulator satisfies the representation invariant *)
+Theorem C04_generated_reachable_wf : forall fuel p st s, reachable fuel p st s -> sim_wf s.
+Proof.
+  intros fuel p st s [cs ->]. apply (reachable_wf p), PV.Sim.Order.run_cmds_reachable, PV.Sim.Order.reach_init.
+Qed.
+Print Assumptions C04_generated_reachable_wf.
+
+Theorem C04_generated_accept_refuse_table :
+  forall fuel p st s c, reachable fuel p st s ->
+    snd (gen_do_cmd fuel p s c)
+    = table c (rs s) (ps s) (end_time s <? clock s) (bound_ok c (clock s)).
+Proof.
+  intros fuel p st s c H. rewrite gen_do_cmd_eq by (exact (C04_generated_reachable_wf fuel p st s H)).
+  apply accept_refuse_table with (st := st). exact H.
+Qed.
+Print Assumptions C04_generated_accept_refuse_table.
+
+Theorem C04_generated_refused_changes_nothing :
+  forall fuel p s c s', sim_wf s -> gen_do_cmd fuel p s c = (s', ResRefused) -> s' = s.
+Proof. intros fuel p s c s' Hwf. rewrite gen_do_cmd_eq by exact Hwf. apply refused_changes_nothing. Qed.
+Print Assumptions C04_generated_refused_changes_nothing.
+
+Theorem C04_generated_refused_notifies_nobody :
+  forall fuel p s c s', sim_wf s -> gen_do_cmd fuel p s c = (s', ResRefused) -> new_ntfs s s' = [].
+Proof. intros fuel p s c s' Hwf. rewrite gen_do_cmd_eq by exact Hwf. apply refused_notifies_nobody. Qed.
+Print Assumptions C04_generated_refused_notifies_nobody.
+
+(* a refused initialize -- a running simulator, a bad model or replication argument -- leaves the
+   simulator object, the pending events included, as it was (for every state) *)
+Theorem C04_generated_refused_initialize_changes_nothing :
+  forall p w s m r k w' s',
+    gen_DEVSSimulator_initialize p w s m r = GExc k w' s' -> running s = true \/ m <> ModelOk \/ r = ReplBad -> s' = s.
+Proof. exact gen_refused_initialize_changes_nothing. Qed.
+Print Assumptions C04_generated_refused_initialize_changes_nothing.
+
+Theorem C04_generated_stream_wf :
+  forall fuel p st cs,
+    fst (gen_run_cmds fuel p (init_sim st) cs) = fst (run_cmds fuel p (init_sim st) cs)
+    /\ lifecycle_ok fuel p (init_sim st) mon_dead cs = true.
+Proof.
+  intros fuel p st cs. split; [rewrite gen_run_cmds_eq by apply init_sim_wf; reflexivity|apply stream_wf].
+Qed.
+Print Assumptions C04_generated_stream_wf.
